@@ -8,6 +8,9 @@ import (
 	"golang.org/x/tools/go/ssa"
 )
 
+// quickTier: set by `check --tier quick`.
+var quickTier bool
+
 // verifyFunction symbolically executes fn under its contract and returns the engine with all
 // obligations generated (not yet discharged).
 func verifyFunction(P *Program, fn *ssa.Function, con *Contract, safe bool, props []string) (e *Engine) {
@@ -16,6 +19,9 @@ func verifyFunction(P *Program, fn *ssa.Function, con *Contract, safe bool, prop
 	e.wantSafe = safe
 	e.props = props
 	if con != nil {
+		if con.FromTemplate && quickTier {
+			e.maxPaths = 500 // sweep units in the quick tier: bounded exploration, reported as partial when hit
+		}
 		for _, c := range con.get("paths") {
 			if len(c.Args) > 0 {
 				fmt.Sscanf(c.Args[0], "%d", &e.maxPaths)
@@ -30,6 +36,7 @@ func verifyFunction(P *Program, fn *ssa.Function, con *Contract, safe bool, prop
 			}
 		}
 		e.secs = time.Since(t0).Seconds()
+		e.closeFeas()
 	}()
 	if fn.Blocks == nil {
 		e.aborted = "no body"
@@ -80,7 +87,7 @@ func verifyFunction(P *Program, fn *ssa.Function, con *Contract, safe bool, prop
 		env.fr = nil
 		e.applyGhostEffects(st, con, env)
 	}
-	if con != nil && con.has("by-induction") && e.propActive(con.get("by-induction")[0].Props) {
+	if con != nil && e.activeInduction(con) != nil {
 		// (a by-induction clause tagged with properties replaces the body only in their checks)
 		e.inductionObligations(st, con)
 		e.renameSites()
@@ -101,7 +108,7 @@ func verifyFunction(P *Program, fn *ssa.Function, con *Contract, safe bool, prop
 func (e *Engine) inductionObligations(st *State, con *Contract) {
 	fn := e.fn
 	name := shortFn(fn)
-	e.inductive = con.get("by-induction")[0].Text
+	e.inductive = e.activeInduction(con).Text
 	env := e.rootEnv(st, nil)
 	env.fr = nil
 	props := con.Props
@@ -274,4 +281,14 @@ func (e *Engine) propActive(ps []string) bool {
 		}
 	}
 	return false
+}
+
+// activeInduction: the by-induction clause (if any) that is in force for the property under check.
+func (e *Engine) activeInduction(con *Contract) *Clause {
+	for _, c := range con.get("by-induction") {
+		if e.propActive(c.Props) {
+			return c
+		}
+	}
+	return nil
 }
